@@ -57,7 +57,9 @@ func main() {
 		Cases: func(r *evid.Run) []chainsim.Case {
 			cs := chainsim.StdCases(r.Seed, r.Pick(192, 4800), r.Pick(60, 100), []string{"hostile", "runtime", "hostile", "default", "registry", "election"})
 			// Key manager traffic (also part of a third of the runtime profile histories).
-			return chainsim.WithExtraCases(cs, r.Seed, r.Pick(16, 400), "keymanager")
+			cs = chainsim.WithExtraCases(cs, r.Seed, r.Pick(16, 400), "keymanager")
+			// VRF beacon backend (proof transactions incl. undecodable proofs, elections by VRF proofs, weak alphas).
+			return chainsim.WithExtraCases(cs, r.Seed, r.Pick(8, 200), "vrf")
 		},
 		RunCase:          runCase,
 		CrashIsViolation: true,
